@@ -25,10 +25,11 @@ func (fx *fnExec) callSiteHooksAfter(callee *ssa.Function, args []Val, res Val, 
 	key := funcKey(callee)
 	short := callee.Name()
 	match := func(n string) bool { return n == key || n == short || n == shortPkg(callee)+"."+short }
-	for _, g := range fx.c.Ghost {
+	for gi, g := range fx.c.Ghost {
 		if !g.After || !match(g.Callee) {
 			continue
 		}
+		noteGhostFired(fx.c, gi)
 		env := fx.specEnv(st, fx.entry, nil)
 		for j, p := range callee.Params {
 			if j < len(args) {
@@ -103,5 +104,30 @@ func (fx *fnExec) dynCallHooks(name string, args []Val, st *State, pos token.Pos
 		}
 		t := env.evalBool(a.Cond)
 		fx.oblige(fmt.Sprintf("assertcall.%s.%d#%d", a.Callee, i+1, fx.callCount[fmt.Sprintf("assert:%d:%s", i, a.Callee)]), "assertcall", st, t, pos, a.Cond.Src)
+	}
+	// ghost counters updated at a call through a function value (after the assertions, which see the
+	// counters as they were before this call)
+	for gi, g := range fx.c.Ghost {
+		if g.Callee != name {
+			continue
+		}
+		noteGhostFired(fx.c, gi)
+		if g.After {
+			fail("%s: `ghost ... after call %s`: %s is called through a function value; use `at call`", fx.fn, name, name)
+		}
+		env := fx.specEnv(st, fx.entry, nil)
+		for j := range args {
+			env.vars[fmt.Sprintf("$%d", j)] = args[j]
+		}
+		d := env.eval(g.Delta.Expr)
+		dt := toBV64(env.coerce(d, tInt))
+		if g.When != nil {
+			dt = Ite(env.evalBool(*g.When), dt, BVI(0, 64))
+		}
+		cur, ok := st.Ghost[g.Name]
+		if !ok {
+			cur = BVI(0, 64)
+		}
+		st.Ghost[g.Name] = BVAdd(cur, dt)
 	}
 }
